@@ -977,6 +977,52 @@ func (r *Run) checkLockPairing(P string) {
 						}
 					}
 				}
+				if !paired {
+					// explicit release: every way from the lock to a return (or to a panic exit) passes a call of the
+					// matching unlock on the same mutex, and nothing between them can panic past it (no call other than
+					// builtins — len, append, copy — in between)
+					isUnlock := func(ins ssa.Instruction) bool {
+						uc, isC := ins.(*ssa.Call)
+						if !isC {
+							return false
+						}
+						us := uc.Common().StaticCallee()
+						return us != nil && strings.HasSuffix(us.String(), "Mutex)."+want) && len(uc.Common().Args) > 0 && ff.TB.Of(uc.Common().Args[0]).String() == mt
+					}
+					ok2, found := true, false
+					var walk func(blk *ssa.BasicBlock, from int, seen map[*ssa.BasicBlock]bool)
+					walk = func(blk *ssa.BasicBlock, from int, seen map[*ssa.BasicBlock]bool) {
+						for i := from; i < len(blk.Instrs); i++ {
+							ins := blk.Instrs[i]
+							if isUnlock(ins) {
+								found = true
+								return
+							}
+							switch x := ins.(type) {
+							case *ssa.Call:
+								if _, isB := x.Common().Value.(*ssa.Builtin); !isB {
+									ok2 = false // a call while the lock is held without a deferred release
+								}
+							case *ssa.Return, *ssa.Panic:
+								ok2 = false
+							}
+						}
+						for _, s2 := range blk.Succs {
+							if !seen[s2] {
+								seen[s2] = true
+								walk(s2, 0, seen)
+							}
+						}
+					}
+					start := 0
+					for i, ins := range c.Block().Instrs {
+						if ins == ssa.Instruction(c) {
+							start = i + 1
+						}
+					}
+					walk(c.Block(), start, map[*ssa.BasicBlock]bool{})
+					paired = ok2 && found
+				}
 				r.R.Check(paired, fmt.Sprintf("%s.lock.pairing.%s.%s", P, core.FuncName(f), want), "E8 pairing: every "+strings.TrimSuffix(strings.TrimPrefix(sc.Name(), ""), "")+" of the queue mutex is followed by a deferred "+want+" of the same mutex in the same function",
 					core.FuncName(f), r.P.Pos(c.Pos()), "a queue lock that is never released blocks every later Add, Peek and Remove: accepted operations are never anchored",
 					"deferred "+want, "no deferred "+want+" of "+mt+" after this lock")
